@@ -80,7 +80,8 @@ InitSt ==
 
 Pkt(ty, ns, id, data) == [ty |-> ty, ns |-> ns, id |-> id, data |-> data]
 
-M0(s) == [s |-> s, pk |-> <<>>, hc |-> <<>>, cbs |-> <<>>, res |-> <<"ok">>, set |-> {}, exc |-> ""]
+M0(s) == [s |-> s, pk |-> <<>>, hc |-> <<>>, cbs |-> <<>>, res |-> <<"ok">>, set |-> {}, exc |-> "",
+          bg |-> 0]      \* handlers handed to a background task (async_handlers) instead of run in line
 
 (* eio.send(): a packet for a transport that is not open is dropped        *)
 (* (engineio server.py send_packet: "Cannot send to sid").                 *)
@@ -269,10 +270,8 @@ RxConnect(m, t, ns, auth) ==
 (* server.py _handle_event / _handle_event_internal (572-602)              *)
 Pack(r) == IF r.k = "none" THEN <<>> ELSE r.v
 
-HandleEvent(m, t, ns, id, ev, args) ==
-    LET sid == SidFromT(m.s, t, ns)
-    IN  IF m.exc # "" \/ ~IsConnected(m.s, sid, ns) THEN m
-        ELSE IF ns \notin NsH THEN m      \* nobody responsible: not_handled, no ACK
+HandleEventInternal(m, t, ns, id, ev, args, sid) ==
+        IF ns \notin NsH THEN m      \* nobody responsible: not_handled, no ACK
         ELSE LET r == EvResult(ev)
              IN  IF r.k = "unh"
                  THEN IF HKind = "fn" THEN m
@@ -286,6 +285,11 @@ HandleEvent(m, t, ns, id, ev, args) ==
                           THEN Send(m1, t, Pkt(IF HasBinary(Pack(r)) THEN "BINARY_ACK" ELSE "ACK",
                                                ns, id, Pack(r)))
                           ELSE m1
+
+HandleEvent(m, t, ns, id, ev, args) ==
+    LET sid == SidFromT(m.s, t, ns)
+    IN  IF m.exc # "" \/ ~IsConnected(m.s, sid, ns) THEN m
+        ELSE HandleEventInternal([m EXCEPT !.bg = IF AsyncHandlers THEN @ + 1 ELSE @], t, ns, id, ev, args, sid)
 
 (* manager.py trigger_callback (80-92) via server.py _handle_ack (604)     *)
 HandleAck(m, t, ns, id, args) ==
